@@ -42,6 +42,7 @@ type Prog struct {
 	GOARCH  string
 	modFunc map[*ssa.Function]bool
 	uniq    map[*ssa.Function][]ssa.CallInstruction
+	bound   map[*ssa.Function][]*ssa.MakeClosure // method (origin) → the method values created of it
 }
 
 // Load type-checks and builds SSA for every package of the module in dir.
